@@ -181,13 +181,29 @@ def finish_case(c):
     return c
 
 
+def outside_hypothesis(ops):
+    """a lying block type, or duplicate txids inside a body / committed list (the CVE-2012-2459 shape)"""
+    for o in ops:
+        if o[0] == "block":
+            if len(o) > 5 and o[5]:
+                return True
+            if len(set(o[3])) != len(o[3]) or len(set(o[4])) != len(o[4]):
+                return True
+    return False
+
+
 def make_suite(cases):
     for c in cases:
         finish_case(c)
-    return Suite("merkle", "merkle", ["From V.model Require Import Merkle."],
-                 [{"key": "merkle", "cases": cases, "per_case_model": True,
-                   "monitors": {"c04": "c04_monitor",
-                                "hyp_valid": "fun ops _ => if c04_valid ops then None else Some (0, [900])"}}])
+    hyp = {"hyp_valid": "fun ops _ => if c04_valid ops then None else Some (0, [900])"}
+    inside = [c for c in cases if not outside_hypothesis(c["ops"])]
+    outside = [c for c in cases if outside_hypothesis(c["ops"])]
+    groups = [{"key": "merkle", "cases": inside, "per_case_model": True,
+               "monitors": dict({"c04": "c04_monitor"}, **hyp)}]
+    if outside:
+        # outside the property's hypotheses: only the model correspondence is checked (and counted by hyp_valid)
+        groups.append({"key": "merkle-outside-hypothesis", "cases": outside, "per_case_model": True, "monitors": hyp})
+    return Suite("merkle", "merkle", ["From V.model Require Import Merkle."], groups)
 
 
 COVER = {}
@@ -243,13 +259,9 @@ def extra(tier, rng, workdir):
     return {"coverage": {"input_distribution": dict(COVER)}}
 
 
-def has_lie(rec):
-    return any(o[0] == "block" and len(o) > 5 and o[5] for o in rec.get("ops", []))
-
-
 def accept_failure(rec):
-    # histories with a lying block type are outside the property's hypotheses (counted by hyp_valid)
-    return not has_lie(rec)
+    # histories outside the property's hypotheses never count as property failures (they are counted by hyp_valid)
+    return not outside_hypothesis(rec.get("ops", []))
 
 
 def block_class(o):
